@@ -1026,8 +1026,21 @@ def allows_many(st):
     return st[0] == 'seq' and st[2] in ('*', '+')
 
 
+def _return_indicator(t):
+    """t renders as 'function(..) as [function(..) as]* T?' or 'T*' with no indicator of its own"""
+    while isinstance(t, list) and t and t[0] == 'seq' and t[2] == '' and isinstance(t[1], list) and \
+            t[1][0] == 'function' and isinstance(t[1][-1], list):
+        t = t[1][-1]
+        if t[0] == 'seq' and t[2] in ('?', '*'):
+            return True
+    return False
+
+
 def occ_class(s, t):
     if allows_empty(s) and not allows_empty(t):
+        if _return_indicator(t):
+            # 'function(..) as T*': the occurrence indicator of the RETURN type is read as the test's own
+            return 'optional<:required/return-type-indicator-of-function-test-read-as-own'
         return 'optional<:required'
     if allows_many(s) and not allows_many(t):
         return 'many<:one'
